@@ -293,7 +293,7 @@ def oracle_cmp(case, ans):
     name = lambda i: f"{addr_text(fam, objs[i][0])}/{objs[i][1]}"  # noqa: E731
     for i in range(n):
         if lt[i, i] or gt[i, i]:
-            fails.append(f"{name(i)} < itself")
+            fails.append(f"{name(i)} {'<' if lt[i, i] else '>'} itself")
         if not eq[i, i] or ne[i, i]:
             fails.append(f"{name(i)} != itself")
         for j in range(n):
